@@ -1277,7 +1277,9 @@ func (w *sessWorld) beforeCall(es *endState) {
 }
 
 func (w *sessWorld) tagThread(ss *sessStream, dir int) {
-	if (ss.dirs[dir].usedFallback && (ss.dirs[dir].usedShm || ss.dirs[dir].closeInvoked)) || (ss.dirs[dir].closeViaSocket && ss.dirs[dir].usedShm) {
+	wend, _ := endsOf(dir)
+	usedFallback := ss.dirs[dir].usedFallback || (ss.ends[wend].stream != nil && ss.ends[wend].stream.inFallbackState)
+	if (usedFallback && (ss.dirs[dir].usedShm || ss.dirs[dir].closeInvoked)) || (ss.dirs[dir].closeViaSocket && ss.dirs[dir].usedShm) {
 		simrt.SetTag("transport_switch", "yes")
 	}
 }
@@ -1672,7 +1674,10 @@ func (w *sessWorld) ctxTags(ss *sessStream, dir int) map[string]string {
 	wend, rend := endsOf(dir)
 	we, re := ss.ends[wend], ss.ends[rend]
 	d := ss.dirs[dir]
-	if (d.usedFallback && (d.usedShm || d.closeInvoked)) || (d.closeViaSocket && d.usedShm) {
+	// (the writer's sticky fallback flag is set inside Flush before the data leaves, i.e. before the harness' own
+	// bookkeeping after Flush returns: look at it as well)
+	usedFallback := d.usedFallback || (we.stream != nil && we.stream.inFallbackState)
+	if (usedFallback && (d.usedShm || d.closeInvoked)) || (d.closeViaSocket && d.usedShm) {
 		tags["transport_switch"] = "yes" // messages (or the close) of this direction travelled through both the queue and the socket
 	}
 	if re.closeInvoked {
